@@ -30,7 +30,7 @@ HOOKS_REQUIRED = ["operator/logbook events", "evolve calls", "later replicates a
                   "anchor entered: RecurrentSelectionBreedingProgram.reset", "anchor entered: RecurrentSelectionBreedingProgram.advance",
                   "anchor entered: RecurrentSelectionBreedingProgram.evolve", "anchor entered: RecurrentSelectionBreedingProgram.initialize",
                   "cases with a manual history before evolve()", "cases with dict-subclass containers",
-                  "cases with int-subclass / numpy integer arguments"]
+                  "cases with int-subclass / numpy integer arguments", "pselect calls returning an empty mating configuration"]
 RULE = ("one case = one programme built from a seeded initial state (classes: empty, scalars, nested lists/dicts/sets, "
         "numpy arrays incl. views/object arrays/NaN, plain objects, cross-container aliasing and cycles, non-string keys, "
         "a pair of pybrops matrices, and 'library' states whose five dicts hold what the containers are documented to hold: "
@@ -45,6 +45,9 @@ RULE = ("one case = one programme built from a seeded initial state (classes: em
         "in ~30 % of the cases every container the programme meets (initial state incl. nested dicts, what operators return, what the "
         "caller assigns) is a dict subclass (OrderedDict, defaultdict, a user subclass with attributes, or a mix); in ~25 % nrep/ngen/"
         "advance counts are numpy integers or nrep/ngen/t_max/t_cur are instances of an int subclass; "
+        "the mating configuration returned by pselect is an EMPTY dict (or empty dict subclass) never / in ~40 % of the cycles / in every "
+        "cycle (2:2:1 over runs), and ~3 % of the operator calls return five brand-new empty containers: order, hand-over and log "
+        "clauses are judged regardless of the truthiness of what operators return; "
         "scenarios: evolve, evolve twice, evolve then advance, operator raising mid-run then evolve again, reset()+advance(); "
         "about a third of the cases first get a manual history on the live programme (reset(), reset()+advance(), start_* "
         "re-assigned to new objects or edited in place, initialize() again with a new initop state, working containers edited "
@@ -306,9 +309,24 @@ class Harness(object):
         self.graveyard = []
         self.fixed_mcfg = {"fixed": True} if g.random() < 0.2 else None
         self.contkind = "dict"
+        self.gm, self.mcfg_mode = None, "never empty"     # own stream for falsy-but-valid return values (set by one_case)
+
+    def next_mcfg(self, out, t_cur):
+        """Mating configuration returned by pselect: the documented type is dict - an empty one is as valid as any."""
+        gm = self.gm
+        r = float(gm.random()) if gm is not None else 1.0
+        if self.mcfg_mode == "always empty" or (self.mcfg_mode == "sometimes empty" and r < 0.4):
+            self.mon.ctx.hook("pselect calls returning an empty mating configuration")
+            return {} if (self.contkind == "dict" or r < 0.2) else O.wrap_container(self.contkind, {}, gm)
+        if self.fixed_mcfg is not None:
+            return self.fixed_mcfg
+        return {"cfg": [self.n, t_cur], "pool": out[0]}
 
     def act(self, kind, conts):
         out = self._act(kind, conts)
+        if self.gm is not None and self.gm.random() < 0.03:         # valid but falsy: brand-new EMPTY containers of the same types
+            self.mon.ctx.sumnote("operator calls returning five empty containers")
+            return [type(c)() if type(c) is not dict else {} for c in out]
         if self.contkind != "dict" and self.g.random() < 0.4:      # hand back dict-subclass containers (new shallow objects)
             if not all(a is b for a, b in zip(out, conts)) or self.g.random() < 0.5:
                 out = [O.wrap_container(self.contkind, c, self.g) for c in out]
@@ -372,7 +390,7 @@ class Harness(object):
             miscout["note_" + kind] = [t_cur, self.n]
         new_mcfg = None
         if kind == "pselect":
-            new_mcfg = self.fixed_mcfg if self.fixed_mcfg is not None else {"cfg": [self.n, t_cur], "pool": out[0]}
+            new_mcfg = self.next_mcfg(out, t_cur)
         self.mon.exit_op(kind, out, new_mcfg)
         return ((new_mcfg,) + tuple(out)) if kind == "pselect" else tuple(out)
 
@@ -669,6 +687,10 @@ def one_case(ctx, c):
         ctx.hook("cases with int-subclass / numpy integer arguments")
     h = Harness(mon, g, beh, log_mutates)
     h.contkind = contkind
+    h.gm = ctx.rng("falsy", c)
+    h.mcfg_mode = ["never empty", "never empty", "sometimes empty", "sometimes empty", "always empty"][int(h.gm.integers(0, 5))]
+    params["mating_configuration"] = h.mcfg_mode
+    ctx.sumnote("mating configuration: " + h.mcfg_mode)
     if intkind == "int subclass":
         t_max = O.TInt(t_max)
     pre = init in ("constructor", "setters")
